@@ -5,7 +5,7 @@
 EXTENDS SigAggCases
 CONSTANT Misfiled      \* include every list of T or T+1 misfiled cluster-key partials
 MCTypes == {"attester", "registration", "randao"}
-MCInit == \E ty \in MCTypes : \E s \in FullCalls(ty) \cup (IF Misfiled /\ ty = "randao" THEN MisfiledCalls(ty) ELSE {}) : InitWith(ty, s)
+MCInit == \E ty \in MCTypes : \E s \in FullCalls(ty) \cup (IF Misfiled /\ ty = "randao" THEN MisfiledCalls(ty) ELSE {}) : \E b \in {"up", "down"} : InitWithBN(ty, s, b)
 \* the tabulated shortcut and the general predicate agree on every misfiled list
 CancelAgree == \A sh \in MisfiledShapes : LET l == ListOf(sh, "randao") IN
                  (sh \in CancelShapes) = (~AllOK(l, "randao") /\ CanBeValid(l, "A", "randao"))
